@@ -238,6 +238,13 @@ class Topic(Entity):
             )
             delivery_events.append(delivery_event)
 
+        # The deliveries are handed to the engine now, after the per-subscriber
+        # latencies have elapsed: date them accordingly (an event dated before
+        # the clock would be discarded and the message lost).
+        if self._clock is not None:
+            for delivery_event in delivery_events:
+                delivery_event.time = self._clock.now
+
         return delivery_events
 
     def publish_sync(self, message: Event) -> list[Event]:
